@@ -373,6 +373,19 @@ def run_one(ck, prog):
                             for f in ctx.edge_facts(e):
                                 if f[0] == "truth" and isinstance(f[1], tuple) and f[1][0] == "call" and f[1][1] == PRED(pn) and f[2] is False and derives_from_release(f[1][2][0], op, kind, consts):
                                     allskip.add((e.src, e.dst))
+                # the two predicates as one comparison: `state & (MASK | WRITERS_WAITING) == WRITERS_WAITING` - its `!=` edge skips
+                for sb in ctx.cfg.live_blocks():
+                    if ctx.cfg.term(sb)["k"] != "switch":
+                        continue
+                    for e in ctx.cfg.succ[sb]:
+                        for f in ctx.edge_facts(e):
+                            if f[0] == "cmp" and f[1] == "Ne":
+                                for x, y in ((f[2], f[3]), (f[3], f[2])):
+                                    mexp = strip_casts(x)
+                                    if fold(y) == WWAIT and isinstance(mexp, tuple) and mexp[0] == "bin" and mexp[1] == "BitAnd":
+                                        for mk, w in ((mexp[2], mexp[3]), (mexp[3], mexp[2])):
+                                            if fold(mk) == (consts["MASK"] | WWAIT) and derives_from_release(w, op, kind, consts):
+                                                allskip.add((e.src, e.dst))
                 r = ctx.cfg.reachable_from(0, avoid=wake_blocks, avoid_edges=allskip)
                 bad = [rb for rb in ctx.cfg.return_blocks() if rb in r]
                 ck.ob("C02.6", f"last-reader-hands-off|{ctx.path}", not bad, fn=ctx.path,
